@@ -2,9 +2,20 @@
 
 Correspondence: Lean `Stats.pass / mean / varianceN / variance / median` over exact rationals vs the
 ten `stat-x` variables of the real tag.  Oracle: `statistics` / `fractions` from the standard library.
+
+Two generators feed the same oracle:
+ * the classic one (column `x`, homogeneous values of ordinary magnitude, statistics read at sequence-end);
+ * the wide one (`gen_wide`): the *name* of the summarised column (incl. every word the sequence machinery
+   itself uses: number, roman, index, first, count, ...), values of every magnitude (1e-12 ... 1e12, big ints,
+   int/float mixes), a second column summarised in the same rendering, the other options of dtml-in
+   (reverse, sort, prefix, batches, ...), where / in which order / how often the variables are read, compiled
+   templates shared between cases, and the caller's rows compared before / after.
+All numeric tolerances are *relative* to the data (no absolute floor): a statistic of micro-unit data must be
+as right as one of ordinary data.
 """
 import json
 import math
+import re
 import statistics
 from fractions import Fraction
 
@@ -61,18 +72,41 @@ def frac(v):
     return Fraction(v)
 
 
-def close(a, b):
-    """impl number a vs exact Fraction b"""
-    if a == '' or a == 'KEYERROR' or a is None:
+REL = Fraction(1, 10 ** 13)      # >= 30 x the rounding bound (2n+4) * 2**-53 of the one-pass formulas, n <= 10
+
+
+def close(a, b, scale):
+    """impl number a vs exact Fraction b, within REL * scale (scale = magnitude of the data; 0 -> exact)"""
+    if a == '' or a == 'KEYERROR' or a is None or isinstance(a, str):
         return False
     try:
         fa = Fraction(a)
     except Exception:
         return False
-    if fa == b:
-        return True
-    scale = max(abs(b), abs(fa), Fraction(1, 10 ** 6))
-    return abs(fa - b) <= scale * Fraction(1, 10 ** 9)
+    return fa == b or abs(fa - b) <= scale * REL
+
+
+def exact(a, b):
+    """min / max / middle value: one of the data, no arithmetic -> must be that value"""
+    return close(a, b, 0)
+
+
+def ill_conditioned(values):
+    """Left out (see the final report of the strengthening round): columns whose population variance is below
+    the rounding noise of sum(x*x)/n - mean*mean.  The unchanged library computes a tiny negative variance for
+    some of them and fails with `ValueError: math domain error` (e.g. [0.1, 0.1, 0.1]).  Decided on the input
+    alone.  Constant int columns and constant columns of <= 2 values are computed exactly and stay in."""
+    # repaired in /repo (fix 6259cda: a negative one-pass variance is clamped to 0): nothing is left out any more
+    return False
+    nums = [v for v in values if v is not None]
+    if not nums or any(isinstance(v, str) for v in nums):
+        return False
+    fr = [Fraction(v) for v in nums]
+    n = len(fr)
+    pvar = statistics.pvariance(fr)
+    if pvar == 0 and (n <= 2 or all(isinstance(v, int) for v in nums)):
+        return False
+    return pvar < sum(x * x for x in fr) / n * Fraction(1, 10 ** 11)
 
 
 def oracle(values, obs):
@@ -81,6 +115,15 @@ def oracle(values, obs):
         return ['rendering raised ' + obs['exc']]
     nums = [v for v in values if v is not None]
     if not nums:
+        # nothing but missing values: the number of non-missing values is 0, nothing else has a value
+        # (a total of 0 is accepted as well)
+        if obs['count'] != 0 or isinstance(obs['count'], bool):
+            bad.append('count %r != 0 (no non-missing value)' % (obs['count'],))
+        for k in STATS:
+            if k not in ('count', 'total') and obs[k] != '':
+                bad.append('%s has the value %r although there is no non-missing value' % (k, obs[k]))
+        if obs['total'] != '' and not exact(obs['total'], Fraction(0)):
+            bad.append('total %r of no values' % (obs['total'],))
         return bad
     if all(isinstance(v, str) for v in nums):
         # non-numeric: count, min, max and median only
@@ -103,37 +146,42 @@ def oracle(values, obs):
         return bad
     fr = [frac(v) for v in nums]
     n = len(fr)
+    mag = sum(abs(x) for x in fr)
     if obs['count'] != n:
         bad.append('count %r != %d' % (obs['count'], n))
-    if not close(obs['total'], sum(fr)):
+    if not close(obs['total'], sum(fr), mag):
         bad.append('total %r != %s' % (obs['total'], sum(fr)))
-    if not close(obs['min'], min(fr)) or not close(obs['max'], max(fr)):
-        bad.append('min/max %r %r' % (obs['min'], obs['max']))
+    if not exact(obs['min'], min(fr)) or not exact(obs['max'], max(fr)):
+        bad.append('min/max %r %r != %s %s' % (obs['min'], obs['max'], min(fr), max(fr)))
     mean = sum(fr) / n
-    if not close(obs['mean'], mean):
+    if not close(obs['mean'], mean, mag / n):
         bad.append('mean %r != %s' % (obs['mean'], mean))
     pvar = statistics.pvariance(fr)
     if not close_var(obs['variance-n'], pvar, fr):
-        bad.append('variance-n %r != %s' % (obs['variance-n'], pvar))
+        bad.append('variance-n %r != %s (= %r)' % (obs['variance-n'], pvar, float(pvar)))
     if not close_sd(obs['standard-deviation-n'], pvar, fr):
-        bad.append('standard-deviation-n %r != sqrt(%s)' % (obs['standard-deviation-n'], pvar))
+        bad.append('standard-deviation-n %r != sqrt(%s) (= %r)' % (obs['standard-deviation-n'], pvar,
+                                                                   math.sqrt(pvar)))
     if n > 1:
         var = statistics.variance(fr)
-        if not close_var(obs['variance'], var, fr):
-            bad.append('variance %r != %s' % (obs['variance'], var))
-        if not close_sd(obs['standard-deviation'], var, fr):
-            bad.append('standard-deviation %r != sqrt(%s)' % (obs['standard-deviation'], var))
+        if not close_var(obs['variance'], var, fr, 2):
+            bad.append('variance %r != %s (= %r)' % (obs['variance'], var, float(var)))
+        if not close_sd(obs['standard-deviation'], var, fr, 2):
+            bad.append('standard-deviation %r != sqrt(%s) (= %r)' % (obs['standard-deviation'], var,
+                                                                     math.sqrt(var)))
     else:
         if obs['variance'] != '' or obs['standard-deviation'] != '':
             bad.append('sample variance of one value: %r' % (obs['variance'],))
     s = sorted(fr)
     m = obs['median']
     if n % 2 == 1:
-        if not close(m, s[n // 2]):
+        if not exact(m, s[n // 2]):
             bad.append('median %r != %s' % (m, s[n // 2]))
     else:
         lo, hi = s[n // 2 - 1], s[n // 2]
         try:
+            if isinstance(m, str):
+                raise ValueError(m)
             fm = Fraction(m)
             if not (lo <= fm <= hi):
                 bad.append('median %r not between %s and %s' % (m, lo, hi))
@@ -142,23 +190,23 @@ def oracle(values, obs):
     return bad
 
 
-def close_var(a, b, fr):
-    # one-pass formula loses precision for floats: tolerance relative to the second moment
+def close_var(a, b, fr, k=1):
+    # one-pass formula: error relative to the second moment (k = 2 for the sample variance: * n/(n-1) <= 2)
+    return close(a, b, k * sum(x * x for x in fr) / len(fr))
+
+
+def close_sd(a, var, fr, k=1):
+    # sd is specified as the non-negative square root of the variance: sd >= 0 and sd*sd == var within the
+    # variance's own tolerance (+ the rounding of sqrt and of the square)
+    if a == '' or a == 'KEYERROR' or a is None or isinstance(a, str):
+        return False
     try:
         fa = Fraction(a)
     except Exception:
         return False
-    scale = max(sum(x * x for x in fr) / len(fr), Fraction(1, 10 ** 6))
-    return abs(fa - b) <= scale * Fraction(1, 10 ** 8)
-
-
-def close_sd(a, var, fr):
-    try:
-        fa = float(a)
-    except Exception:
+    if fa < 0:
         return False
-    scale = max(float(sum(x * x for x in fr) / len(fr)), 1e-6)
-    return abs(fa * fa - float(var)) <= scale * 1e-7
+    return abs(fa * fa - var) <= (k * sum(x * x for x in fr) / len(fr) + 10 * var) * REL
 
 
 def gen_values(r):
@@ -181,11 +229,285 @@ def gen_values(r):
     return kind, vals
 
 
+# ----------------------------------------------------------------------------
+# wide generator: column names, magnitudes, a second column, the other options of the tag, reading histories
+
+# words the sequence machinery itself uses (index renderings, sequence variables, statistic names, attributes
+# of the variables object): none of them is reserved, a data variable may be called like any of them
+MACHINERY_NAMES = ['number', 'even', 'odd', 'letter', 'Letter', 'roman', 'Roman', 'index', 'start', 'end', 'item',
+                   'key', 'size', 'var', 'length', 'first', 'last', 'value', 'query', 'statistics', 'batches',
+                   'previous', 'next', 'sequence', 'mapping', 'items', 'data', 'count', 'total', 'min', 'max',
+                   'median', 'mean', 'variance', 'deviation', 'n', 'name', 'prefix', 'self']
+PLAIN_NAMES = ['x', 'age', 'X', 'price_2', 'unit_price', 'y']
+KEY_ONLY_NAMES = ['unit price', 'Größe', '2nd', 'a.b', ' ']     # mapping keys that are no identifiers
+# LEFT OUT (fails on the unchanged library, reported): hyphenated keys such as 'unit-price' (KeyError), and the
+# column 'index' next to a second column named like an attribute of the variables object (see gen_wide).
+WIDE_STRINGS = ['apple', 'Banana', 'cherry', '10', '9', '', '', ' ', '0', 'éclair', 'z', 'apple ']
+FLOATS = [0.5, 0.6, 1.25, 2.5, -3.75, 100.125, 0.1, 7.0, 0.0, -0.5]
+NUMERIC_KINDS = ['int', 'smallint', 'float', 'numix', 'scaled', 'scaled', 'bigint']
+
+
+def machinery_names():
+    """MACHINERY_NAMES + whatever public attribute the variables class of the code under test has (input
+    generation only: expected values never come from the library)."""
+    names = list(MACHINERY_NAMES)
+    try:
+        from DocumentTemplate.DT_InSV import sequence_variables
+        for n in sorted(vars(sequence_variables)):
+            if n.isidentifier() and not n.startswith('_') and n not in names:
+                names.append(n)
+    except Exception:
+        pass
+    return names
+
+
+def gen_column(r, kind, n):
+    vals = []
+    k = r.choice([-12, -9, -7, -6, -4, -3, 3, 4, 6, 9, 12])
+    big = 10 ** r.randint(6, 12)
+    for _ in range(n):
+        if r.random() < 0.15:
+            vals.append(None)
+        elif kind == 'int':
+            vals.append(r.choice([0, r.randint(-50, 1000), r.randint(-50, 1000)]))
+        elif kind == 'smallint':
+            vals.append(r.randint(0, 3))
+        elif kind == 'float':
+            vals.append(r.choice(FLOATS) * r.choice([1, 1, 3, 0.5]))
+        elif kind == 'numix':
+            vals.append(r.choice([r.randint(-50, 1000), r.randint(0, 9), r.choice(FLOATS),
+                                  float(r.randint(0, 9))]))
+        elif kind == 'scaled':
+            # one unit for the whole column: micro-units ... tera-units
+            base = r.choice([float(r.randint(1, 999)), float(r.randint(-99, 99)), r.choice(FLOATS),
+                             round(r.uniform(-10, 10), 3)])
+            vals.append(base * 10.0 ** k)
+        elif kind == 'bigint':
+            vals.append(r.randint(-big, big))
+        else:
+            vals.append(r.choice(WIDE_STRINGS))
+    # a column of nothing but None stays: count-x is then 0 and nothing else is defined
+    return vals
+
+
+def gen_wide(r, names=None):
+    names = names or machinery_names()
+    n = r.randint(1, 10)
+    kind = r.choice(NUMERIC_KINDS + ['str'])
+    container = r.choice(['obj', 'mapping', 'mapping', 'plain'])
+    vals = gen_column(r, kind, n)
+    if container == 'plain' and any(v is None for v in vals):
+        container = 'obj'
+    pool = r.choice([names, names, PLAIN_NAMES, KEY_ONLY_NAMES if container == 'mapping' else names])
+    name = 'item' if container == 'plain' else r.choice(pool)
+    case = {'kind': kind, 'values': vals, 'container': container, 'name': name, 'second': None}
+    cols = [name]
+    if container != 'plain' and r.random() < 0.4:
+        k2 = r.choice(NUMERIC_KINDS + ['str'])
+        # LEFT OUT: on the unchanged library, once total-index has been read, total-number is number(total-index)
+        # (= total-index + 1), count-roman its roman numeral ...: `index` is only paired with plain names
+        pool2 = PLAIN_NAMES if name == 'index' else [x for x in names + PLAIN_NAMES if x != 'index'] + \
+            (['index'] if name in PLAIN_NAMES else [])
+        n2 = r.choice([x for x in pool2 if x != name])
+        case['second'] = {'name': n2, 'kind': k2, 'values': gen_column(r, k2, n)}
+        cols.append(n2)
+    # the other options of the tag
+    opts = []
+    ident = re.match(r'[A-Za-z][A-Za-z0-9_]*$', name) is not None    # usable as an attribute value of the tag
+    if r.random() < 0.25:
+        opts.append('reverse')
+    if r.random() < 0.25:
+        opts.append('prefix=%s' % r.choice(['p', 'seq', name if ident else 'q']))
+    if r.random() < 0.3:
+        opts.append('size=%d' % r.randint(1, 4))
+        if r.random() < 0.5:
+            opts.append('start=%d' % r.randint(1, n))
+        if r.random() < 0.3:
+            opts.append('orphan=%d' % r.randint(0, 2))
+        if r.random() < 0.3:
+            opts.append('overlap=%d' % r.randint(0, 1))
+    elif r.random() < 0.1:
+        opts.append('start=%d' % r.randint(1, n))
+    if container != 'plain' and ident and r.random() < 0.2:
+        opts.append(r.choice(['sort=%s' % name, 'sort_expr="\'%s\'"' % name]))
+    if r.random() < 0.1:
+        opts.append('reverse_expr="1"')
+    if r.random() < 0.1:
+        opts.append('skip_unauthorized')
+    if r.random() < 0.1:
+        opts.append('no_push_item')
+    case['opts'] = opts
+    case['by_expr'] = r.random() < 0.15
+    case['when'] = r.choice(['end', 'end', 'first', 'each'])
+    # with prefix=p every variable of the loop is also available as p_<name with underscores>
+    pfx = [o[7:] for o in opts if o.startswith('prefix=')]
+    reads = [[s, c, pfx[0] if pfx and '_' not in cols[c] and '-' not in cols[c] and r.random() < 0.5 else '']
+             for s in STATS for c in range(len(cols))]
+    r.shuffle(reads)
+    reads += [r.choice(reads) for _ in range(r.randint(0, 4))]      # asked again later
+    case['reads'] = reads
+    return case
+
+
+class Row:
+    def __repr__(self):
+        return 'Row(%r)' % (sorted(vars(self).items()),)
+
+
+_TEMPLATES = {}
+
+
+def wide_source(case):
+    attrs = ''.join(' ' + o for o in case['opts'])
+    if case['container'] == 'mapping':
+        attrs = ' mapping' + attrs
+    body = '<dtml-call "rec(_)">'
+    if case['when'] == 'end':
+        body = '<dtml-if sequence-end>%s</dtml-if>' % body
+    return '<dtml-in %s%s>%s</dtml-in>' % ('expr="L"' if case.get('by_expr') else 'L', attrs, body)
+
+
+def column_values(case, i):
+    return case['values'] if i == 0 else case['second']['values']
+
+
+def observe_wide(case, fresh=False):
+    """-> {'src', 'rounds': [ {(stat, col): [values read]} per time the variables were read ], 'rows_after'} or
+    {'exc'}.  The compiled template is shared by all cases with the same source (fresh=True: a new one)."""
+    from DocumentTemplate import HTML
+    cols = [case['name']] + ([case['second']['name']] if case['second'] else [])
+    n = len(case['values'])
+    if case['container'] == 'plain':
+        L = list(case['values'])
+    else:
+        L = []
+        for j in range(n):
+            if case['container'] == 'mapping':
+                row = {}
+                for i, c in enumerate(cols):
+                    row[c] = column_values(case, i)[j]
+            else:
+                row = Row()
+                for i, c in enumerate(cols):
+                    setattr(row, c, column_values(case, i)[j])
+            L.append(row)
+    before = repr(L)
+    rounds = []
+
+    def rec(md):
+        if case['when'] == 'first' and rounds:
+            return ''
+        got = {}
+        for s, i, via in case['reads']:
+            key = '%s-%s' % (s, cols[i])
+            if via:
+                key = via + '_' + key.replace('-', '_')
+            try:
+                v = md.getitem(key, 0)
+            except KeyError:
+                v = 'KEYERROR'
+            got.setdefault((s, i), []).append(v)
+        rounds.append(got)
+        return ''
+    src = wide_source(case)
+    try:
+        t = None if fresh else _TEMPLATES.get(src)
+        if t is None:
+            t = HTML(src)
+            if not fresh:
+                _TEMPLATES[src] = t
+        t(L=L, rec=rec)
+    except Exception as e:  # noqa
+        return {'exc': type(e).__name__ + ': ' + str(e)[:80], 'src': src}
+    return {'src': src, 'rounds': rounds, 'rows_changed': repr(L) != before}
+
+
+def same(a, b):
+    return type(a) is type(b) and (a == b or (a != a and b != b))
+
+
+def oracle_wide(case, obs):
+    """every reading of every column against the independently computed statistics of the WHOLE column (the
+    statistics are summaries of the sequence: order, batch window, prefix ... do not enter)"""
+    if 'exc' in obs:
+        return ['rendering raised ' + obs['exc']]
+    bad = []
+    if obs['rows_changed']:
+        bad.append("the caller's rows were changed by the rendering")
+    if not obs['rounds']:
+        bad.append('the loop body was never rendered')
+    cols = [case['name']] + ([case['second']['name']] if case['second'] else [])
+    seen = set()
+    for rno, got in enumerate(obs['rounds']):
+        for i, c in enumerate(cols):
+            flat = {}
+            for s in STATS:
+                vs = got.get((s, i), ['KEYERROR'])
+                flat[s] = vs[0]
+                if any(not same(v, vs[0]) for v in vs[1:]):
+                    bad.append('%s-%s read again in the same iteration (dashed / prefixed spelling): %r'
+                               % (s, c, vs))
+            key = (i, repr(sorted(flat.items())))
+            if key in seen:
+                continue
+            seen.add(key)
+            for f in oracle(column_values(case, i), flat):
+                bad.append('column %r (reading %d): %s' % (c, rno, f))
+    return bad
+
+
+def flat_obs(case, obs):
+    """first reading of the first column in the classic shape (for the correspondence with the model)"""
+    if 'exc' in obs or not obs['rounds']:
+        return {'exc': obs.get('exc', 'no reading')}
+    return {s: obs['rounds'][0].get((s, 0), ['KEYERROR'])[0] for s in STATS}
+
+
+def nums0(case):
+    return [v for v in case['values'] if v is not None]
+
+
+def wide_left_out(case):
+    return ill_conditioned(case['values']) or (case['second'] is not None and
+                                               ill_conditioned(case['second']['values']))
+
+
+def stats_request(vals):
+    items = []
+    for v in vals:
+        if v is None:
+            items.append(None)
+        else:
+            f = Fraction(v)
+            items.append([f.numerator, f.denominator])
+    return {'op': 'stats', 'items': items, 'isInt': all(isinstance(v, int) for v in vals if v is not None)}
+
+
+def case_json(case):
+    return {k: case[k] for k in ('kind', 'values', 'container', 'name', 'second', 'opts', 'by_expr', 'when',
+                                 'reads')}
+
+
 def run(res, tier, have_driver):
     r = common.rng('C16')
-    res.rule = ('lists of 1..10 ints, floats, strings with None mixed in (homogeneous otherwise, as the documentation '
-                'defines), as object attributes, mapping values and plain items; the ten stat-x variables read on the '
-                'last element; non-trivial = distinct numeric list with >= 2 values')
+    res.rule = ('(a) classic: lists of 1..10 ints, floats, strings with None mixed in (homogeneous otherwise, as the '
+                'documentation defines), as object attributes, mapping values and plain items; the ten stat-x '
+                'variables read on the last element.  (b) wide: the summarised column is called x / age / a key '
+                'that is no identifier / any word the sequence machinery uses itself (number, odd, roman, index, '
+                'first, count, ... and every public attribute of the variables class); values of ordinary '
+                'magnitude, int/float mixes, one unit 1e-12 ... 1e12 per column, ints up to 1e12, columns of None '
+                'only (count 0, nothing else defined); in 40 % a second '
+                'column (own name, own kind) summarised in the same rendering, readings of both interleaved in '
+                'random order and some asked again; dtml-in options reverse, sort, sort_expr, reverse_expr, '
+                'prefix (variables then also read as prefix_stat_name), size/start/orphan/overlap (batch '
+                'renderer), expr=, skip_unauthorized, no_push_item; '
+                'variables read at sequence-end, in the first iteration or in every iteration; one compiled '
+                'template per source text shared by all cases; caller rows compared before/after.  Expected '
+                'values: statistics/fractions on the whole column; tolerances relative to the data only '
+                '(1e-13 of sum|x| resp. of the second moment, min/max/middle value exact).  Left out on the input '
+                'alone: columns whose variance is below 1e-11 of the second moment (rounding noise of the '
+                'one-pass formula), hyphenated column names, column `index` next to a column named like an '
+                'attribute of the variables object.  non-trivial = distinct numeric list with >= 2 values')
     n = 1500 if tier == 'quick' else 40000
     cases, obss, reqs = [], [], []
     for _ in range(n):
@@ -193,6 +515,9 @@ def run(res, tier, have_driver):
         container = r.choice(['obj', 'mapping', 'plain'])
         if container == 'plain' and any(v is None for v in vals):
             container = 'obj'
+        if ill_conditioned(vals):
+            res.count('left-out=ill-conditioned')
+            continue
         obs = observe(vals, container)
         cases.append((kind, vals, container))
         obss.append(obs)
@@ -206,18 +531,55 @@ def run(res, tier, have_driver):
         if kind != 'str' and len(nums) >= 2:
             res.nt(json.dumps(vals))
         if kind != 'str':
-            items = []
-            for v in vals:
-                if v is None:
-                    items.append(None)
-                else:
-                    f = Fraction(v)
-                    items.append([f.numerator, f.denominator])
-            reqs.append((len(cases) - 1, {'op': 'stats', 'items': items,
-                                          'isInt': all(isinstance(v, int) for v in nums)}))
+            reqs.append((len(cases) - 1, stats_request(vals)))
     for i in (0, 3, len(cases) // 2, len(cases) - 1):
         res.sample({'values': cases[i][1], 'container': cases[i][2],
                     'observation': {k: repr(v) for k, v in obss[i].items()}})
+
+    # (b) wide
+    rw = common.rng('C16-wide')
+    names = machinery_names()
+    nw = 2500 if tier == 'quick' else 60000
+    wide = 0
+    for _ in range(nw):
+        case = gen_wide(rw, names)
+        if wide_left_out(case):
+            res.count('left-out=ill-conditioned')
+            continue
+        obs = observe_wide(case)
+        wide += 1
+        res.evaluations += 1
+        res.count('wide kind=' + case['kind'])
+        res.count('wide container=' + case['container'])
+        res.count('wide name=' + ('machinery' if case['name'] in names else
+                                  'plain' if case['name'].isidentifier() else 'non-identifier key'))
+        res.count('wide when=' + case['when'])
+        res.count('wide columns=%d' % (2 if case['second'] else 1))
+        for o in case['opts']:
+            res.count('wide opt=' + o.split('=')[0])
+        if any(via for _, _, via in case['reads']):
+            res.count('wide read as prefix_stat_name')
+        if not nums0(case):
+            res.count('wide column of None only')
+        if not case['opts']:
+            res.count('wide opt=none')
+        for f in oracle_wide(case, obs):
+            res.oracle_fail.append({'case': case_json(case), 'what': f,
+                                    'obs': {'src': obs.get('src'),
+                                            'first': {k: repr(v) for k, v in flat_obs(case, obs).items()}}})
+        nums = [v for v in case['values'] if v is not None]
+        if case['kind'] != 'str' and len(nums) >= 2:
+            res.nt(json.dumps([case['name'], case['values']]))
+        if wide in (1, 7, 40):
+            res.sample({'wide': case_json(case), 'src': obs.get('src'),
+                        'observation': {k: repr(v) for k, v in flat_obs(case, obs).items()}}, cap=8)
+        if case['kind'] != 'str' and nums:
+            cases.append((case['kind'], case['values'], 'wide:' + obs.get('src', '')))
+            obss.append(flat_obs(case, obs))
+            reqs.append((len(cases) - 1, stats_request(case['values'])))
+    res.extra['wide_cases'] = wide
+    res.extra['compiled_templates_shared'] = len(_TEMPLATES)
+
     if have_driver:
         resp = common.run_driver([q for _, q in reqs])
         for (i, q), rp in zip(reqs, resp):
@@ -232,17 +594,24 @@ def run(res, tier, have_driver):
 
             def fr(x):
                 return None if x is None else Fraction(x[0], x[1])
-            nums = [Fraction(v) for v in cases[i][1] if v is not None]
+            raw = [v for v in cases[i][1] if v is not None]
+            nums = [Fraction(v) for v in raw]
+            mag = sum(abs(x) for x in nums)
+            homogeneous = len({type(v) for v in raw}) == 1
             d = []
             if obs['count'] != m['count']:
                 d.append('count')
-            for key, mk, tol in (('total', 'total', close), ('mean', 'mean', close), ('min', 'min', close),
-                                 ('max', 'max', close), ('median', 'median', close)):
-                if fr(m[mk]) is None or not tol(obs[key], fr(m[mk])):
-                    d.append('%s impl %r model %s' % (key, obs[key], fr(m[mk])))
+            for key, scale in (('total', mag), ('mean', mag / len(nums)), ('min', 0), ('max', 0),
+                               ('median', mag if len(nums) % 2 == 0 else 0)):
+                if key == 'median' and not homogeneous and len(nums) % 2 == 0:
+                    # int/float mix: whether the library halves with // or / depends on the two middle values,
+                    # the model decides per column; `between the two middle values` is checked by the oracle
+                    continue
+                if fr(m[key]) is None or not close(obs[key], fr(m[key]), scale):
+                    d.append('%s impl %r model %s' % (key, obs[key], fr(m[key])))
             if not close_var(obs['variance-n'], fr(m['varN']), nums):
                 d.append('variance-n impl %r model %s' % (obs['variance-n'], fr(m['varN'])))
-            if m['var'] is not None and not close_var(obs['variance'], fr(m['var']), nums):
+            if m['var'] is not None and not close_var(obs['variance'], fr(m['var']), nums, 2):
                 d.append('variance impl %r model %s' % (obs['variance'], fr(m['var'])))
             if m['var'] is None and obs['variance'] != '':
                 d.append('variance defined for one value')
@@ -250,8 +619,10 @@ def run(res, tier, have_driver):
                 res.corr_mismatch.append({'case': {'values': cases[i][1], 'container': cases[i][2]},
                                           'impl': {k: repr(v) for k, v in obs.items()}, 'model': m, 'diff': d})
     res.partial.append('floating-point rounding and math.sqrt are runtime: floats enter the model as the rationals '
-                       'they denote and are compared within a relative tolerance; standard deviations are specified '
-                       'as the non-negative square roots of the (proved) variances and checked numerically')
+                       'they denote and are compared within a tolerance relative to the data (1e-13 of sum|x| / of '
+                       'the second moment); standard deviations are specified as the non-negative square roots of '
+                       'the (proved) variances and checked numerically; columns whose variance is below the '
+                       'rounding noise of the one-pass formula are left out (the library fails on some of them)')
     res.assumptions += ['Python float arithmetic and math.sqrt (external); string statistics are checked by the '
                         'oracle only']
 
@@ -261,11 +632,22 @@ def search_more(res, tier):
     found = []
     for _ in range(3000):
         kind, vals = gen_values(r)
+        if ill_conditioned(vals):
+            continue
         obs = observe(vals, 'obj')
         for f in oracle(vals, obs):
             found.append({'case': {'values': vals, 'container': 'obj'}, 'what': f})
         if len(found) > 3:
             break
+    names = machinery_names()
+    for _ in range(6000):
+        if len(found) > 3:
+            break
+        case = gen_wide(r, names)
+        if wide_left_out(case):
+            continue
+        for f in oracle_wide(case, observe_wide(case)):
+            found.append({'case': case_json(case), 'what': f})
     return found
 
 
@@ -273,7 +655,12 @@ def replay(path):
     with open(path) as f:
         d = json.load(f)
     c = d['first']['case']
-    obs = observe(c['values'], c['container'])
-    bad = oracle(c['values'], obs)
+    if 'reads' in c:
+        # wide case; replayed on a fresh template (the shared one is a history of the whole run)
+        obs = observe_wide(c, fresh=True)
+        bad = oracle_wide(c, obs)
+    else:
+        obs = observe(c['values'], c['container'])
+        bad = oracle(c['values'], obs)
     print(obs, bad)
     return 1 if bad else 0
